@@ -3900,10 +3900,16 @@ class BoutMesh(Mesh):
             # member
             chi.ylow = 2.0 * numpy.pi * self.zShift.ylow / self.ShiftAngle.centre
             # set to NaN in divertor leg regions where chi is not valid
+            # Note: the arrays include the y-boundary guard cells, jyseps* do not. The
+            # guard cells of the upper targets (double null only) are in the middle of
+            # the arrays.
+            upper_guards = 2 * myg if jyseps2_1 != jyseps1_2 else 0
             for c in [chi.centre, chi.xlow, chi.ylow]:
-                c[:, : jyseps1_1 + 1] = float("nan")
-                c[:, jyseps2_1 + 1 : jyseps1_2 + 1] = float("nan")
-                c[:, jyseps2_2 + 1 :] = float("nan")
+                c[:, : jyseps1_1 + myg + 1] = float("nan")
+                c[:, jyseps2_1 + myg + 1 : jyseps1_2 + myg + upper_guards + 1] = float(
+                    "nan"
+                )
+                c[:, jyseps2_2 + myg + upper_guards + 1 :] = float("nan")
             chi.attributes["bout_type"] = "Field2D"
             self.writeArray("chi", chi, f)
 
